@@ -280,6 +280,7 @@ package eval
 //@ spec func ignoredUnder(env Env, c ast.ConditionType, forbid bool) bool = !errIs(pE(env, c.Body), errVariable) && errIs(pE(env, c.Body), errIgnore) && forbid
 //@ func PartialPolicy
 //@   props C06
+//@   pure
 //@   requires p != nil
 //@   results policy, keep
 //@   ensures scope_drop: !(partialPrincipalScope#1(env, env.Principal, p.Principal) && partialActionScope#1(env, env.Action, p.Action) && partialResourceScope#1(env, env.Resource, p.Resource)) ==> !keep
